@@ -233,6 +233,21 @@ pub fn run(ctx: &Ctx, rep: &mut Report) {
             rep.add_space(&format!("from_binary_card: every value of the 28-bit window at bit offset {}", off), &acc, t0, "all 2^28 bit patterns inside the window, zero outside");
         }
     }
+    {
+        let d = deck();
+        let mut items = Vec::new();
+        for i in (0..52).step_by(3) {
+            items.push(Case::new("from_ckc", &[d[i].word() as u64]));
+            items.push(Case::new("from_binary_card", &[d[i].bit()]));
+        }
+        for w in [0u64, 1, 23, d[0].word() as u64 | (1 << 29), (d[0].word() ^ 1) as u64, u32::MAX as u64] {
+            items.push(Case::new("from_ckc", &[w]));
+        }
+        for b in [0u64, 3, 1 << 52, 1 << 63, (1 << 51) | 1, u64::MAX, (1u64 << 52) - 1] {
+            items.push(Case::new("from_binary_card", &[b]));
+        }
+        super::history2(rep, judge, &items);
+    }
     let _ = PokerCard::is_blank(&0u32);
     rep.rule = "distinct words / distinct 64-bit values; non-trivial = inputs that denote a real card (must map to exactly that card's other form)".into();
     rep.bound = "word -> bit complete (2^32). bit -> word: all values with <= 3 or >= 61 bits set, all values confined to 28-bit windows, named masks; the remaining 64-bit values are outside (an exact 52-arm match cannot tell them from the explored multi-bit values, but that is an argument, not an enumeration)".into();
